@@ -23,6 +23,14 @@ CHECKS = {
             "the exported datagram sequence is compared with the sender's per-datagram STREAM concatenations, and monitors compare every reconstructed packet number "
             "and parsed frame list with what was sent. Held on the executions observed.",
             TRUST, "3/C02"),
+    "C11": ("exploration", "runtime monitor comparing the real checksum routines with an independent RFC 1071 verifier on solved-for boundary packets + metamorphic end-to-end oracle (-c with corrupted packets == no -c with them removed)",
+            "The real calculate_checksum_tcp/udp run on real Packet objects whose payloads are solved so that the unfolded sum hits every carry/fold boundary and "
+            "the 0x0000/0xFFFF checksum values; the end-to-end relation of the property is checked byte for byte on TLS and QUIC scenes with arbitrary corrupted subsets.",
+            TRUST, "3/C11"),
+    "C15": ("exploration", "runtime monitors on key installation (Decryptor.__init__, QuicSession.set_initial_decryptor/set_tls_decryptors/check_key_epoch) inside real end-to-end runs, compared with hashlib/hmac reference key schedules",
+            "Keys are observed where they are installed for a real connection, so the wiring session -> key_derivator -> decryptor is part of what is checked; every "
+            "(suite, version) of the frozen matrix with random secrets, and QUIC connections with Retry, 0-RTT and several key-update generations.",
+            "trusted: vlib.refkdf, checked against RFC 5869/9001 vectors at setup", "3/C15"),
     "C14": ("exploration", "runtime contract on the real split_cipher_suite, evaluated exhaustively over all 65 536 code points",
             "Exhaustive enumeration of the whole input space of the real function under a post-condition derived from an independent frozen "
             "IANA registry copy and an independent structural name parser; the space is finite so this run is complete for the function, and the "
